@@ -4,6 +4,7 @@ import random
 import re
 
 from vflib import core, build
+from oracle import refjson
 from gen.inputs import InputGen, LITERALS
 from gen.labels import labels, REQUIRED
 
@@ -37,6 +38,33 @@ def shard_fn(shard, nshards, seed, tier, exe, ninputs):
                 items.append(("long", t))
                 break
     items.append(("long", b'["' + bytes(rng.choice(b"ab\\\"/ \xc3\xa9") if rng.random() > 0.1 else 0x61 for _ in range(rng.choice([100, 255, 256, 257, 600]))).replace(b'\\"', b"q").replace(b'"', b"'") + b'",' + b"1234567890" * rng.choice([3, 7, 20]) + b"]"))
+    comment_cuts = {}
+    # comments and white space AFTER the complete root value (where a call that ends there must still say "more input needed" or "done" consistently)
+    for j in range(len(items)):
+        kind, s = items[j]
+        if kind not in ("stream", "long", "listed-witness") and 0 < len(s) < 200 and rng.random() < 0.08:
+            suf = rng.choice([b"//c\n", b" // trailing comment\n", b" //x", b"/*c*/", b" /* c */ ", b"\n/* a\n b */\n", b" /*", b" /", b"//\n//\n"])
+            items[j] = (kind, s + suf)
+            sh.count("inputs.with_comment_after_the_root_value")
+            # absolute expectation (the split-vs-prefix comparison cannot see this one: both sides end at the same place): when the text before the comment is a
+            # complete container or string, a call that ends INSIDE the comment (before its terminator, with no NUL in sight) has to ask for more input
+            try:
+                v0 = refjson.parse(s)
+                ok0 = isinstance(v0, (list, dict, bytes))
+            except Exception:
+                ok0 = False
+            if ok0 and b"\0" not in suf:
+                lead = len(suf) - len(suf.lstrip(b" \n"))
+                body = suf[lead:]
+                if body.startswith(b"//"):
+                    end_in = lead + (body.index(b"\n") if b"\n" in body else len(body))
+                    inside = range(lead + 1, end_in + 1)
+                elif body.startswith(b"/*"):
+                    end_in = lead + (body.index(b"*/") + 1 if b"*/" in body else len(body))
+                    inside = range(lead + 1, end_in + 1)
+                else:
+                    inside = range(lead + 1, lead + 2)   # a lone '/'
+                comment_cuts[len(items) * 0 + j] = [len(s) + k for k in inside]
     for i, (kind, s) in enumerate(items):
         cid = "%d.%d" % (shard, i)
         sd = rng.getrandbits(32)
@@ -51,6 +79,8 @@ def shard_fn(shard, nshards, seed, tier, exe, ninputs):
                 cmds = ["X 0xff 32 8 %d x%s" % (sd, s.hex())]
             if rng.random() < 0.15 or kind in ("literal", "listed-witness"):
                 cmds.append("T 0x0f 4 %d x%s" % (sd, s.hex()))
+        if i in comment_cuts:
+            cmds.append("K 0 x%s %s" % (s.hex(), " ".join(str(c) for c in comment_cuts[i])))
         cases.append((cid, cmds))
         meta[cid] = (kind, s)
     cases.append(("%d.hist" % shard, ["Z"]))
@@ -70,6 +100,17 @@ def shard_fn(shard, nshards, seed, tier, exe, ninputs):
         for cmd, ln in zip(cmdmap[cid], lines):
             if not ln.startswith("="):
                 raise core.Inconclusive("bad driver line: " + ln[:200])
+            if cmd.startswith("K "):
+                cuts = [int(x) for x in cmd.split()[3:]]
+                for c, r in zip(cuts, ln.split()[1:]):
+                    sh.evaluations += 1
+                    sh.count("calls_ending_inside_a_comment_after_the_root_value")
+                    if int(r.split(",")[0]) != 1:   # json_tokener_continue
+                        sh.violation("C03/call-ending-inside-trailing-comment/%s" % STATUS.get(int(r.split(",")[0]), "error"),
+                                     "a call on the first %d bytes ends inside the comment that follows the complete root value but reported %s (err,end) instead of asking for more input; input=%r" % (c, r, s[:120]),
+                                     {"driver": "splitdrv", "variant": "asan", "script": [cmd], "input": repr(s), "input_hex": s.hex(), "cuts": [c]})
+                        break
+                continue
             f = kv(ln)
             sh.evaluations += f.get("calls", 0) + f.get("parts", 0)
             sh.count("parse_calls", f.get("calls", 0))
